@@ -12,10 +12,19 @@ var ENotImpl error = p9p.MessageRerror{Ename: "not implemented"}
 var noHandle FileHandle = FileHandle{Path:"/", ent:nil, sess:nil}
 
 func (f *FileEnt) IsDir() bool {
+	f.Lock()
+	defer f.Unlock()
+	return f.isDirLocked()
+}
+
+// isDirLocked is IsDir for callers that already hold f's lock.
+func (f *FileEnt) isDirLocked() bool {
 	return f.Info.Mode&p9p.DMDIR > 0
 }
 
 func (ref *FileEnt) Qid() p9p.Qid {
+	ref.Lock()
+	defer ref.Unlock()
 	return ref.Info.Qid
 }
 func (h FileHandle) Qid() p9p.Qid {
@@ -39,22 +48,26 @@ func (ref *FileEnt) OpenDir(ctx context.Context,
 							dotdot p9p.Dir) (p9p.ReadNext, error) {
 	ref.Lock()
 	defer ref.Unlock()
-	if !ref.IsDir() {
+	if !ref.isDirLocked() {
 		return nil, p9p.MessageRerror{Ename: "not a directory"}
 	}
 
 	dirs := []p9p.Dir{dotdot}
 	for _, file := range ref.children {
-		dirs = append(dirs, file.Info)
+		// lock order is always parent before child
+		info, _ := file.Stat(ctx)
+		dirs = append(dirs, info)
 	}
 	return (&dirList{dirs, false}).Next, nil
 }
 func (h FileHandle) OpenDir(ctx context.Context) (p9p.ReadNext, error) {
 	var dotdot p9p.Dir
 	if len(h.parents) == 0 {
-		dotdot = withName("..", h.ent.Info)
+		info, _ := h.ent.Stat(ctx)
+		dotdot = withName("..", info)
 	} else {
-		dotdot = withName("..", h.parents[len(h.parents)-1].Info)
+		info, _ := h.parents[len(h.parents)-1].Stat(ctx)
+		dotdot = withName("..", info)
 	}
 
 	return h.ent.OpenDir(ctx, dotdot)
@@ -98,11 +111,13 @@ func (ref *FileEnt) Walk(names ...string) []*FileEnt {
 	var i int
 
 	for i = 0; i < len(names); i++ {
-		var found bool
-		ref, found = ref.children[names[i]]
+		ref.Lock()
+		next, found := ref.children[names[i]]
+		ref.Unlock()
 		if !found {
 			break
 		}
+		ref = next
 		ans[i] = ref
 	}
 	return ans[:i]
@@ -201,7 +216,7 @@ func (h FileHandle) Walk(ctx context.Context, names ...string) ([]p9p.Qid, p9p.D
 
 	qids = make([]p9p.Qid, len(ans))
 	for i, a := range ans {
-		qids[i] = a.Info.Qid
+		qids[i] = a.Qid()
 	}
 
 	return qids, rh, nil
@@ -241,6 +256,8 @@ func (h FileHandle) createImpl(fname string, mode uint32) (FileHandle, error) {
 }
 
 func (ref *FileEnt) Stat(ctx context.Context) (p9p.Dir, error) {
+	ref.Lock()
+	defer ref.Unlock()
 	return ref.Info, nil
 }
 func (h FileHandle) Stat(ctx context.Context) (p9p.Dir, error) {
@@ -248,6 +265,8 @@ func (h FileHandle) Stat(ctx context.Context) (p9p.Dir, error) {
 }
 
 func (ref *FileEnt) WStat(ctx context.Context, dir p9p.Dir) error {
+	ref.Lock()
+	defer ref.Unlock()
 	if dir.Mode != ^uint32(0) {
 		ref.Info.Mode = dir.Mode
 	}
